@@ -275,6 +275,25 @@ func NewBasicConstraints(critical bool, isCa bool, pathLen int) pkix.Extension {
 	}
 }
 
+// Create a Basic Constraints Extension according to RFC5280 whose
+// pathLenConstraint is always present, which is the only way to express a
+// path length of zero ([cert.NewBasicConstraints] treats zero as absent).
+func NewBasicConstraintsWithPathLen(critical bool, isCa bool, pathLen int) pkix.Extension {
+	type BasicConstraints struct {
+		IsCa    bool `asn1:"optional"`
+		Pathlen int
+	}
+
+	bcStruct := BasicConstraints{IsCa: isCa, Pathlen: pathLen}
+	bcBody, _ := asn1.Marshal(bcStruct)
+
+	return pkix.Extension{
+		Critical: critical,
+		Id:       oidExtensionBasicConstraints,
+		Value:    bcBody,
+	}
+}
+
 // PolicyInfo for the Certificate Policies Extension.
 type PolicyInfo struct {
 	asn1.ObjectIdentifier
